@@ -1,3 +1,98 @@
 import PysphVerif.Driver.Common
-/-! Line-protocol driver for C17 (stub: not built yet). -/
-def main : IO Unit := PysphVerif.Driver.loopPure (fun _ => "bad-op")
+import PysphVerif.Model.Reorder
+/-!
+Line protocol for C17 (integers only):
+
+* `ll ncells=<nat> cid=<nats>`                       → ordered indices of `LinkedListNNPS`/`BoxSortNNPS`
+* `sort key=<nats>`                                  → ZOrder/ExtendedZOrder/StratifiedSFC (stable)
+* `ci I=<nat> cell=<nats>`                           → `CellIndexingNNPS`
+* `oct leafmax=<nat> fuel=<nat> code=<digit strings> stop=<digit strings>`
+     `code[q]` = octant digits of particle `q` from the root down (`-` = none);
+     `stop` = root-to-node paths where `eps > EPS_MAX` ended the subdivision  → Octree/CompressedOctree
+* `gather idx=<nats> stride=<nat> data=<ints>`       → `c_align_array`
+* `reorder fix=<0|1> idx=<nats> nreal=<nat> P <name> <stride> <ints> P …`
+     → `nreal=<nat> P <name> <ints> P …` (`spatially_order_particles`, original / repaired)
+
+answers are comma separated lists (`_` = empty); anything else: `bad-op`.
+-/
+namespace PysphVerif.Driver.C17
+open PysphVerif.Wire PysphVerif.Reorder
+
+def showNats (l : List Nat) : String := showList toString l
+def showInts (l : List Int) : String := showList toString l
+
+def fnOf (l : List Nat) (dflt : Nat) : Nat → Nat := fun i => l.getD i dflt
+
+def parseDigits? (s : String) : Option (List Nat) :=
+  if s = "-" then some [] else
+  s.toList.mapM (fun c => if '0' ≤ c ∧ c ≤ '7' then some (c.toNat - '0'.toNat) else none)
+
+/-- split token list at every "P" -/
+def groups (toks : List String) : List (List String) :=
+  let r := toks.foldl (fun (acc : List (List String)) t =>
+    if t = "P" then [] :: acc else
+    match acc with
+    | [] => [[t]]
+    | g :: gs => (t :: g) :: gs) [[]]
+  r.reverse.map List.reverse
+
+def parseCol (toks : List String) : Option Col :=
+  match toks with
+  | [name, stride, data] => do
+    let s ← parseNat? stride
+    let d ← parseList? parseInt? data
+    pure { name := name, stride := s, data := d }
+  | _ => none
+
+def showCol (c : Col) : String := "P " ++ c.name ++ " " ++ showInts c.data
+
+def showPA (pa : PA) : String :=
+  " ".intercalate (("nreal=" ++ toString pa.nReal) :: pa.props.map showCol)
+
+def handle (line : String) : String :=
+  match groups (tokens line) with
+  | [] => "bad-op"
+  | hd :: colGroups =>
+    match hd with
+    | [] => "bad-op"
+    | cmd :: rest =>
+      let kv := kvs rest
+      let nat (k : String) := (lookup kv k) >>= parseNat?
+      let nats (k : String) := (lookup kv k) >>= parseList? parseNat?
+      if cmd = "ll" then
+        match nat "ncells", nats "cid", colGroups with
+        | some nc, some cid, [] => showNats (llOrder (fnOf cid nc) nc cid.length)
+        | _, _, _ => "bad-op"
+      else if cmd = "sort" then
+        match nats "key", colGroups with
+        | some key, [] => showNats (sortOrder (fnOf key 0) key.length)
+        | _, _ => "bad-op"
+      else if cmd = "ci" then
+        match nat "I", nats "cell", colGroups with
+        | some i, some cell, [] => showNats (ciOrder i (fnOf cell 0) cell.length)
+        | _, _, _ => "bad-op"
+      else if cmd = "oct" then
+        match nat "leafmax", nat "fuel", (lookup kv "code") >>= parseList? parseDigits?,
+              (lookup kv "stop") >>= parseList? parseDigits?, colGroups with
+        | some lm, some fuel, some code, some stop, [] =>
+          -- digit 8 is "no such octant": the particle falls out of every child
+          let digit : Nat → Nat → Nat := fun depth q => (code.getD q []).getD depth 8
+          let stopf : List Nat → Bool := fun path => stop.contains path.reverse
+          showNats (octOrder lm digit stopf fuel code.length)
+        | _, _, _, _, _ => "bad-op"
+      else if cmd = "gather" then
+        match nats "idx", nat "stride", (lookup kv "data") >>= parseList? parseInt?, colGroups with
+        | some idx, some s, some d, [] => showInts (gather idx s d)
+        | _, _, _, _ => "bad-op"
+      else if cmd = "reorder" then
+        match nat "fix", nats "idx", nat "nreal", colGroups.mapM parseCol with
+        | some fix, some idx, some nreal, some cols =>
+          if fix > 1 then "bad-op" else
+          let pa : PA := { props := cols, nReal := nreal }
+          showPA (if fix = 1 then spatiallyOrder idx pa else spatiallyOrderOrig idx pa)
+        | _, _, _, _ => "bad-op"
+      else "bad-op"
+
+end PysphVerif.Driver.C17
+
+def main : IO Unit := PysphVerif.Driver.loopPure PysphVerif.Driver.C17.handle
